@@ -4,7 +4,7 @@ import BsVerif.Model.Dap
 `C12 new <sid> <variant> <force>`            → `ok` (fresh session)
 `C12 pipe`                                   → `ok` (the next request is sent while the previous one is still being
                                                executed: no effect on a sequential session)
-`C12 req <seq> <command> <mutation> <param> h:<outcome> [tl:<ids>|tl:none] [h:ok|h:fail] [pg:<n>] [nrec:<n>]`
+`C12 req <seq> <command> <mutation> <param> h:<outcome> [tl:<ids>|tl:none] [h:ok|h:fail] [pg:<n>] [nrec:<n>] [dbg:<alive|gone|unload>]`
                                              → canonical list of the messages the session writes
 `C12 sched <writer ids>`                     → the sequence numbers in wire order (writer model) -/
 namespace Driver.C12
@@ -74,6 +74,9 @@ def decHints (ts : List String) : Option PHint :=
     else if t.startsWith "h:stop:" then some { p with h := { p.h with outcome := .stop (t.drop 7).toString } }
     else if t == "tl:none" then some { p with hasTl := false }
     else if t.startsWith "tl:" then (decList? decNat? (t.drop 3).toString).map fun l => { h := { p.h with tl := l }, hasTl := true }
+    else if t == "dbg:alive" then some { p with h := { p.h with dbgAfter := .inProgress } }
+    else if t == "dbg:gone" then some { p with h := { p.h with dbgAfter := .exited } }
+    else if t == "dbg:unload" then some { p with h := { p.h with dbgAfter := .unload } }
     else if t.startsWith "pg:" then (decNat? (t.drop 3).toString).map fun n => { p with h := { p.h with pg := n } }
     else if t.startsWith "nrec:" then (decNat? (t.drop 5).toString).map fun n => { p with h := { p.h with nrec := n } }
     else none
